@@ -31,6 +31,9 @@ type Out struct {
 	Prop     string   `json:"property"`
 	Facts    []Fact   `json:"facts"`
 	Problems []string `json:"problems"`
+	// translate.go: Lean text appended to the Gen file inside the namespace, and the signatures of what was translated
+	Raw        []string `json:"-"`
+	Translated []string `json:"translated,omitempty"`
 }
 
 func (o *Out) nat(name string, v uint64, from string) {
@@ -286,6 +289,9 @@ func writeLean(dir string, o *Out) error {
 	fmt.Fprintf(&sb, "namespace Fatchoy.Gen.%s\n", o.Prop)
 	for _, f := range o.Facts {
 		fmt.Fprintf(&sb, "/-- %s -/\ndef %s : %s := %s\n", f.From, f.Name, f.Type, f.Value)
+	}
+	for _, raw := range o.Raw {
+		sb.WriteString(raw)
 	}
 	fmt.Fprintf(&sb, "end Fatchoy.Gen.%s\n", o.Prop)
 	path := filepath.Join(dir, o.Prop+".lean")
